@@ -20,8 +20,10 @@ from ..lib.core import Failure, Disagreement
 from ..lib.storeimpl import Impl, BadOp, TRACKED
 from . import c12_sweep as SW
 from . import c12_vec as VEC
+from . import c12_link as LNK
 from ..extract import writeorder as _wo
 from ..extract import mutorder as _mo
+from ..extract import linkorder as _lo
 
 PROP = "C12"
 LEAN_MODULE = "NixModel.Props.C12"
@@ -51,6 +53,16 @@ THEOREMS = [
     "Nix.C12.mutators_validate_first",
     "Nix.C12.mutator_paths_refused_unchanged",
     "Nix.Order.safePath_refused_unchanged",
+    "Nix.C12.link_steps_refused_unchanged",
+    "Nix.C12.link_functions_safe",
+    "Nix.C12.link_data_array_refused_unchanged",
+    "Nix.C12.range_link_data_array_refused_unchanged",
+    "Nix.C12.link_data_frame_refused_unchanged",
+    "Nix.C12.range_link_data_frame_refused_unchanged",
+    "Nix.C12.append_range_dimension_using_self_refused_unchanged",
+    "Nix.C12.range_link_data_array_accepted",
+    "Nix.C12.late_type_check_counterexample",
+    "Nix.C12.entry_check_counterexample",
 ]
 ASSUMPTIONS = [
     "uuid4 ids are drawn from an abstract fresh supply; no link of the file is named like an id not yet drawn "
@@ -71,6 +83,10 @@ ASSUMPTIONS = [
     "VecWrite: elements of an offered value are abstract (typeOk / convOk / h5Ok); a NumPy conversion that succeeded makes "
     "the following h5py write of the converted contiguous array succeed; h5py refuses a resize to another rank without "
     "changing the dataset; resize of a one-dimensional dataset truncates or zero-pads",
+    "LinkWrite: the index offered to link_data_array / append_range_dimension_using_self is abstract (what the container "
+    "can do: len, iteration, count, membership in collections.abc.Sequence; per entry: plain number, == -1, < 0, "
+    "comparable, storable); only validations and the set_attr of the index can raise, every other HDF5 write of "
+    "DimensionLink.create_new succeeds; the harness probes the Python object to obtain the abstraction",
 ]
 TRUSTED_EXTRA = ["harness/lib/storeimpl.py + storegen.py (path addressing by iteration, HDF5-level dump with h5py)",
                  "harness/props/c12.py FAULTS table (concrete invalid argument -> stage and error class)",
@@ -80,7 +96,13 @@ TRUSTED_EXTRA = ["harness/lib/storeimpl.py + storegen.py (path addressing by ite
                  "harness/extract/mutorder.py classifies the calls in the bodies of the public mutators (validation / "
                  "primitive write / refusable call / protected section) by name; the abstract execution of Pure/Order.lean "
                  "(only validations and refusable calls raise, a protected section restores the file) is a model of that "
-                 "discipline, not of h5py"]
+                 "discipline, not of h5py",
+                 "harness/extract/linkorder.py renders link_data_array / link_data_frame (Dimension and RangeDimension) and "
+                 "append_range_dimension_using_self with their callees inlined (_check_link_dimensionality, _check_index, "
+                 "remove_link, DimensionLink.create_new, the DimensionLink.index setter) statement by statement; any "
+                 "statement it does not know is a broken tie",
+                 "harness/props/c12_link.py probes of the offered index (len / iter / count / isinstance Sequence, per entry "
+                 "isinstance / == -1 / < 0, NumPy's element type of the list)"]
 READY = True
 MANIFEST = {
     "level_text": "Kernel-checked theorems over two Lean models tied to the source. (1) nixio's creating/mutating API "
@@ -103,19 +125,30 @@ MANIFEST = {
                   "its body; mutators_validate_first proves by evaluation that all but 15 named ones never validate, raise "
                   "or call a refusable mutator after an unprotected write, and safePath_refused_unchanged that this "
                   "discipline implies refused => unchanged in the abstract execution, for every oracle of failures. "
+                  "(4) dimension links (Pure/LinkWrite.lean): link_data_array / link_data_frame of Dimension and RangeDimension "
+                  "and append_range_dimension_using_self are step lists rendered from the source with the callees inlined "
+                  "(Generated/LinkOrder.lean: the pre-checks, remove_link, DimensionLink.create_new write by write, the late "
+                  "validations of the DimensionLink.index setter); link_steps_refused_unchanged proves for every step list "
+                  "that, if every statement able to raise after the first write asks only for what a guard passed before it "
+                  "has established, a refused call returns the file it found - for every spelling of the index (container "
+                  "capabilities x entries) and every previous state of the descriptor; link_functions_safe evaluates that "
+                  "discipline on the generated lists, the five *_refused_unchanged theorems are the instances, "
+                  "late_type_check_counterexample / entry_check_counterexample prove the earlier orders wrong. "
                   "Tied to the code by differential execution: random histories with injected invalid calls (HDF5-level "
                   "dump after the refusal compared with the writer model's reached graph, then the same call with a valid "
                   "argument) and random vector assignments (dataset read back with h5py). An implementation-side oracle "
                   "states the property itself: strict HDF5 snapshot around every refused call of a catalogue, of random "
                   "histories, and of the argument-spelling sweep (about 175 value-taking public mutators x 350 spellings of "
-                  "the value x short / long stored state; quick tier: a stratified part, thorough: most of it).",
+                  "the value x short / long stored state, and every argument of 82 multi-argument calls varied in turn over "
+                  "~180 respellings of its own valid value - the same content as tuple / ndarray / generator / duck-typed "
+                  "container / NumPy scalar / enum text / entity id ...; quick tier: a stratified part, thorough: most of it).",
     "level_note": "Trusted: Lean kernel; standard axioms; the correspondence harness with its fault table and element table; "
-                  "the two translators' reading of the statements; h5py/HDF5 link and resize semantics modelled, not "
+                  "the three translators' reading of the statements; h5py/HDF5 link and resize semantics modelled, not "
                   "verified; the event classification of mutorder.py is by method name and the 15 mutators listed in "
                   "Props/C12.lean `writesFirst` are exempt from the order theorem (covered by the writer model or the oracle "
                   "only). Partial: array data and frame contents are leaf nodes - refusals of DataSet.append, "
                   "write_direct, __setitem__, data_extent, DataFrame writes, dimension setters (labels, unit, label, "
-                  "offset, interval), dimension links, Property attribute setters, Section item assignment, copy_from "
+                  "offset, interval), Property attribute setters, Section item assignment, copy_from "
                   "creation and File-level deletes have no theorem: they are checked by the oracle (catalogue + spelling "
                   "sweep) on the implementation only. Tag.units / MultiTag.units / SetDimension.labels: only their common "
                   "write_data call with a text dtype has a theorem (write_data_text_refused_unchanged), their own validation "
@@ -125,7 +158,8 @@ MANIFEST = {
                   "create_group/source/data_array/tag (not for multi tags).",
     "technique": "Lean 4 proof (writer semantics of the structural model: per-operation case analysis and invariants over "
                  "all graphs / histories; a step-list machine for the vector setters with induction over validation "
-                 "prefixes) with differential correspondence checking against nixio, two ast-based translators, and an "
+                 "prefixes; a guard-discipline theorem by induction over step lists for the dimension links) with differential "
+                 "correspondence checking against nixio, three ast-based translators, and an "
                  "implementation-side property oracle (snapshot around refused calls: catalogue, histories, spelling sweep)",
 }
 
@@ -133,6 +167,7 @@ MANIFEST = {
 def extract(repo):
     files = dict(_wo.extract(repo))
     files.update(_mo.extract(repo))
+    files.update(_lo.extract(repo))
     return files
 
 
@@ -738,8 +773,41 @@ def correspondence(ctx):
     finally:
         scene.close()
     total += n_vec
+    # the link-building functions: model (step lists rendered from the source, callees inlined) vs. implementation
+    n_link = ctx.budget(600, 6000)
+    lrng = random.Random("%s/link/%d" % (PROP, ctx.seed))
+    lcases = []
+    while len(lcases) < n_link:
+        lc = LNK.gen_case(lrng)
+        if LNK.applicable(lc):
+            lcases.append(lc)
+    lmodel = core.run_driver(PROP, [LNK.model_op(c) for c in lcases])
+    ldist = {"refused": 0, "accepted": 0}
+    lscene = LNK.Scene(ctx.tmpfile("c12-link.nix"))
+    try:
+        with ticking_clock():
+            for c, m in zip(lcases, lmodel):
+                i = lscene.run(c)
+                ldist["refused" if i["refused"] else "accepted"] += 1
+                k = "%s/%s" % (c["fn"], c.get("container", "column"))
+                ldist[k] = ldist.get(k, 0) + 1
+                seen.add(core.canon(["link", c]))
+                if LNK.canon_model(m, c) != LNK.canon_impl(i):
+                    disagreements.append(Disagreement({"link_case": c}, LNK.canon_model(m, c),
+                                                      dict(LNK.canon_impl(i), error=i["error"])))
+    finally:
+        lscene.close()
+    total += n_link
     return {"evaluations": total, "distinct_nontrivial": len(seen),
-            "rule": "(1) vector setters: Tag.position / Tag.extent / DataArray.polynom_coefficients / Property.values / "
+            "rule": "(0) dimension links: link_data_array / link_data_frame on a set or range dimension (holding labels / "
+                    "ticks or not, linked or not) and append_range_dimension_using_self, the index spelled as one of 24 "
+                    "containers (list, tuple, ndarray, deque, array.array, Sequence class, duck-typed class, generator, set, "
+                    "dict keys, bytes, str, range, None, scalars, 0-d array ...) over 34 kinds of entries (Python / NumPy "
+                    "numbers, bool, Fraction, Decimal, text, None, complex, objects, integers beyond 64 bit, nan), the "
+                    "column as 18 values: refused or accepted, the descriptor read back with h5py (ticks, link fresh / "
+                    "previous, complete / half-built, stored index length / column), number of descriptors, updated_at "
+                    "of the array - against Pure/LinkWrite.lean run on the step lists of Generated/LinkOrder.lean. "
+                    "(1) vector setters: Tag.position / Tag.extent / DataArray.polynom_coefficients / Property.values / "
                     "RangeDimension.ticks (plain or linked dimension) with a random stored vector (or none) and a value spelled as None / number / object / list / tuple / "
                     "ndarray (float64, int64, str, object) / 0-d array / nested list / 2-D array / empty, elements numbers, "
                     "text, objects, integers outside int64: refused or accepted, the dataset read back with h5py, whether "
@@ -757,7 +825,7 @@ def correspondence(ctx):
                     "op (canonical JSON) whose result is an error or a non-empty value",
             "samples": samples,
             "distribution": {"ops": dist, "impl_errors": errs, "injected": inj, "refused_mutating_calls": refused_mut,
-                             "vector_cases": vdist},
+                             "vector_cases": vdist, "link_cases": ldist},
             "disagreements": disagreements, "exhaustive": False}
 
 
@@ -1203,6 +1271,7 @@ def _time_limit(seconds):
 
 
 NOT_APPLICABLE = "n/a"
+_OFFERED = {"value": None}      # the value of the last call of the sweep, for the failure report
 
 
 def _sweep_call(scene, tlabel, slabel):
@@ -1218,6 +1287,10 @@ def _sweep_call(scene, tlabel, slabel):
             return NOT_APPLICABLE, None
     else:
         v = SW.SPELLING_INDEX[slabel][1](scene.c)
+    try:
+        _OFFERED["value"] = "%s: %s" % (type(v).__name__, repr(v)[:160])
+    except Exception:       # noqa
+        _OFFERED["value"] = type(v).__name__
     try:
         with _time_limit(8.0):
             _quiet(lambda: call(scene.c, v))
@@ -1243,8 +1316,8 @@ def _sweep_reset(scene, tlabel):
 def _sweep_failure(long, tlabel, slabel, history, err, diff):
     return Failure("a refused call changed the file",
                    {"kind": "sweep", "long": long, "target": tlabel, "spelling": slabel, "accepted_before": history},
-                   {"raised": err, "changes": diff}, "file identical before and after the refused call",
-                   "sweep:" + tlabel)
+                   {"raised": err, "offered": _OFFERED["value"], "changes": diff},
+                   "file identical before and after the refused call", "sweep:" + tlabel)
 
 
 def sweep(ctx, plan, deadline=None):
